@@ -149,6 +149,25 @@ func genPred(o *tape.Stream, depth, useMeas, useFields int) pnode {
 	return p
 }
 
+// genValPred draws a predicate with a value comparison that applies to some of the matching series only (or to all):
+// the per-series residue of such a predicate differs from series to series, and the cursors of one read are reused
+// from one series to the next and from one shard to the next.
+func genValPred(o *tape.Stream, useMeas, useFields int) pnode {
+	val := pnode{Val: true, T: []float64{0, 2, 5, 12, 40}[o.Choose(5, "vthr")]}
+	a, b := genCmp(o, useMeas, useFields), genCmp(o, useMeas, useFields)
+	switch o.Choose(5, "vshape") {
+	case 0: // (a AND _value > T) OR b
+		return pnode{L: "or", K: []pnode{{L: "and", Par: true, K: []pnode{a, val}}, b}}
+	case 1: // b OR (a AND _value > T)
+		return pnode{L: "or", K: []pnode{b, {L: "and", Par: true, K: []pnode{val, a}}}}
+	case 2: // a AND _value > T
+		return pnode{L: "and", K: []pnode{a, val}}
+	case 3: // _value > T OR a
+		return pnode{L: "or", K: []pnode{val, a}}
+	}
+	return val
+}
+
 var groupKeys = []string{"host", "region", "_measurement", "_field"}
 
 func gen(r *hx.Run) []json.RawMessage {
@@ -216,6 +235,10 @@ func gen(r *hx.Run) []json.RawMessage {
 			}
 			if !o.Bool(1, 4, "nopred") {
 				pp := genPred(o, 0, useMeas, useFields)
+				p.P = &pp
+			}
+			if o.Bool(1, 5, "valpat") {
+				pp := genValPred(o, useMeas, useFields)
 				p.P = &pp
 			}
 			rng(&p)
